@@ -87,6 +87,40 @@ def attend (th e : κ → κ) (fl : Flavour κ) (D : Nat) (q : List κ) (ks vs :
   let ws := weights th e fl q ks mask
   (List.range D).map (wsumCoord ws vs)
 
+/-! ### Block-by-block accumulation
+
+A memory-saving implementation of the last line of `forward` does not build the full
+`(E*, T, C*, D)` product: it cuts the sequence axis into consecutive blocks and adds up the weighted
+sums of the blocks (`out = 0; for blk in blocks: out += (a[blk].unsqueeze(-1) * value[blk]).sum(dim)`).
+`chunks ns l` is that cut for ANY list `ns` of block lengths (what is left after the last length is one
+more block, so every position belongs to exactly one block; lengths may be 0 or overshoot);
+`attendChunked` is `attend` with the weighted sum accumulated over the blocks by a left fold.
+`C20_chunked` / `C20_chunked_any_order` prove that this is `attend`, whatever the blocks and whatever the
+order in which they are visited. -/
+
+/-- Consecutive blocks of the given lengths, the remainder as a last block. -/
+def chunks {α : Type} : List Nat → List α → List (List α)
+  | [], l => [l]
+  | n :: ns, l => l.take n :: chunks ns (l.drop n)
+
+/-- The blocks of weights paired with the blocks of values. -/
+def blocks (ns : List Nat) (ws : List κ) (vs : List (List κ)) : List (List κ × List (List κ)) :=
+  (chunks ns ws).zip (chunks ns vs)
+
+/-- `out = 0; for (a_blk, v_blk) in bs: out += (a_blk * v_blk).sum()` for coordinate `d`. -/
+def accumulate (bs : List (List κ × List (List κ))) (d : Nat) : κ :=
+  bs.foldl (fun acc p => acc + wsumCoord p.1 p.2 d) 0
+
+/-- Coordinate `d` of the weighted sum accumulated block by block. -/
+def wsumChunked (ns : List Nat) (ws : List κ) (vs : List (List κ)) (d : Nat) : κ :=
+  accumulate (blocks ns ws vs) d
+
+/-- `forward` with the weighted sum accumulated over the consecutive blocks `ns` describes. -/
+def attendChunked (th e : κ → κ) (fl : Flavour κ) (D : Nat) (ns : List Nat) (q : List κ)
+    (ks vs : List (List κ)) (mask : Option (List Bool)) : List κ :=
+  let ws := weights th e fl q ks mask
+  (List.range D).map (wsumChunked ns ws vs)
+
 /-! ## Multi-headed attention -/
 
 /-- What `MultiHeadedAttention.__init__` creates. -/
